@@ -735,12 +735,232 @@ class Program:
             self._callees = {}
             self._callers = None
         if include is not None:
+            self.unroll_array_loops()
+            self._callees = {}
+            self._callers = None
+        if include is not None:
             self.prune_infallible_arms()
             self._callees = {}
             self._callers = None
 
     # ---- helper functions that did not exist on the reference tree are inlined into their callers, so that rules anchored on the
     #      functions of the reference tree keep seeing the same code after an "extract function" refactoring
+    def unroll_array_loops(self, max_len=8, max_body=60):
+        """`for x in [a, b, c] { body }` (and `let mut it = [..].into_iter(); while let Some(x) = it.next() { .. }`): the loop over a literal array is
+        replaced by its body once per element, in order - what the compiler's own unrolling would produce.  Rules about call sequences
+        (update(prefix); update(bytes); sign / add_field in tag order) then see straight-line code again.  Only loops whose iterator is an
+        array::IntoIter created from an array literal built in the same function, used for nothing but that loop, are touched."""
+        import copy
+        self.unrolled = []
+        for path in list(self.fns):
+            fn = self.fns[path]
+            if fn.derived or not any(bl.term["k"] == "call" and ("array::iter" in str(bl.term["fn"].get("path", "")) or "slice::iter::Iter<" in str(bl.term["fn"].get("path", "")))
+                                     for bl in fn.blocks) or not fn.loops():
+                continue
+            for _round in range(6):
+                fn = self.fns[path]
+                done = False
+                defs = fn.defs()
+                for L in sorted(fn.loops(), key=lambda l: len(l["body"])):
+                    h = L["header"]
+                    body = L["body"]
+                    t = fn.blocks[h].term
+                    npath = str(t["fn"].get("path", "")) if t["k"] == "call" else ""
+                    by_ref = "slice::iter::Iter<" in npath
+                    if len(body) > max_body or t["k"] != "call" or not npath.endswith("::next") or not ("array::iter::IntoIter" in npath or by_ref):
+                        continue
+                    if any(l2 is not L and l2["body"] < body for l2 in fn.loops()):
+                        continue        # innermost loops first; an outer one is looked at again in the next round
+
+                    def one_def(l):
+                        ds = [d for d in defs.get(l, []) if d[0] in fn.reachable() and d[2] == "whole"]
+                        return ds[0] if len(ds) == 1 and len([d for d in defs.get(l, []) if d[0] in fn.reachable()]) == 1 else None
+
+                    def ref_target(l, depth=0):
+                        """local l holds `&mut X` / `&mut *r`: the local X"""
+                        d = one_def(l) if depth == 0 else None
+                        ds = [x for x in defs.get(l, []) if x[0] in fn.reachable() and x[2] == "whole" and x[1] != "term"]
+                        if not ds or depth > 3:
+                            return None
+                        outs = set()
+                        for (b, i, k) in ds:
+                            rv = fn.blocks[b].stmts[i]["rv"]
+                            if rv["k"] != "ref":
+                                return None
+                            pl = rv["place"]
+                            pj = [e for e in pl.get("p", [])]
+                            if not pj:
+                                outs.add(pl["l"])
+                            elif pj == ["deref"]:
+                                r = ref_target(pl["l"], depth + 1)
+                                if r is None:
+                                    return None
+                                outs.add(r)
+                            else:
+                                return None
+                        return outs.pop() if len(outs) == 1 else None
+                    a0 = (t["args"][0].get("mv") or t["args"][0].get("cp")) if t.get("args") else None
+                    if not a0 or a0.get("p") or not t.get("dst") or t["dst"].get("p"):
+                        continue
+                    it = ref_target(a0["l"])
+                    if it is None:
+                        continue
+                    # the iterator: one definition outside the loop, `it = move tmp` / tmp = into_iter(move arr)
+                    src = it
+                    arr = None
+                    for _ in range(4):
+                        ds = [d for d in defs.get(src, []) if d[0] in fn.reachable() and not (d[2] == "borrow_mut" and d[0] == h)]
+                        if len(ds) != 1 or ds[0][2] != "whole" or ds[0][0] in body:
+                            break
+                        b0, i0, _k = ds[0]
+                        if i0 == "term":
+                            ct = fn.blocks[b0].term
+                            if ct["k"] == "call" and "array::iter" in str(ct["fn"].get("path", "")) and str(ct["fn"].get("path", "")).endswith("into_iter") and ct.get("args") and not by_ref:
+                                o = ct["args"][0].get("mv") or ct["args"][0].get("cp")
+                                if o and not o.get("p"):
+                                    arr = o["l"]
+                            elif ct["k"] == "call" and by_ref and strip_generics(str(ct["fn"].get("path", ""))).endswith("::iter") and "slice" in str(ct["fn"].get("path", "")) and ct.get("args"):
+                                # `arr.iter()`: the argument is `&arr` (unsized), arr a local that is never borrowed mutably or partially assigned
+                                o = ct["args"][0].get("mv") or ct["args"][0].get("cp")
+                                for _h in range(4):
+                                    if not o or o.get("p"):
+                                        break
+                                    d2 = [d for d in defs.get(o["l"], []) if d[0] in fn.reachable()]
+                                    if len(d2) != 1 or d2[0][1] == "term":
+                                        break
+                                    rv2 = fn.blocks[d2[0][0]].stmts[d2[0][1]]["rv"]
+                                    if rv2["k"] == "ref" and not rv2.get("mut") and not rv2["place"].get("p"):
+                                        a_l = rv2["place"]["l"]
+                                        if all(d[2] == "whole" for d in defs.get(a_l, [])):
+                                            arr = a_l
+                                        break
+                                    o = (rv2["op"].get("mv") or rv2["op"].get("cp")) if rv2["k"] in ("use", "cast") else None
+                            break
+                        rv = fn.blocks[b0].stmts[i0]["rv"]
+                        o = (rv["op"].get("mv") or rv["op"].get("cp")) if rv["k"] == "use" else None
+                        if not o or o.get("p"):
+                            break
+                        src = o["l"]
+                    if arr is None:
+                        continue
+                    elems = None
+                    for _ in range(3):
+                        ds = [d for d in defs.get(arr, []) if d[0] in fn.reachable()]
+                        if len(ds) != 1 or ds[0][2] != "whole" or ds[0][1] == "term":
+                            break
+                        rv = fn.blocks[ds[0][0]].stmts[ds[0][1]]["rv"]
+                        if rv["k"] == "agg" and not rv.get("adt") and fn.locals[arr]["ty"].lstrip("&").startswith("["):
+                            elems = rv["ops"]
+                            break
+                        o = (rv["op"].get("mv") or rv["op"].get("cp")) if rv["k"] == "use" else None
+                        if not o or o.get("p"):
+                            break
+                        arr = o["l"]
+                    if elems is None or not (1 <= len(elems) <= max_len):
+                        continue
+                    # every element is a constant or a local that is assigned exactly once (the array is a snapshot taken before the loop)
+                    if not all("c" in e or ((e.get("mv") or e.get("cp")) and not (e.get("mv") or e.get("cp")).get("p") and one_def((e.get("mv") or e.get("cp"))["l"])) for e in elems):
+                        continue
+                    # the iterator is used for nothing else: every mention of `it` is its definition, the borrow for next(), or a drop / storage marker
+                    uses_ok = True
+                    for bl in fn.blocks:
+                        if bl.idx not in fn.reachable():
+                            continue
+                        for st in bl.stmts:
+                            if st["k"] != "assign":
+                                continue
+                            rv = st["rv"]
+                            if rv["k"] == "ref" and rv["place"]["l"] == it and not (bl.idx == h or bl.idx in body):
+                                uses_ok = False
+                            if rv["k"] == "use" and (rv["op"].get("mv") or rv["op"].get("cp") or {}).get("l") == it:
+                                uses_ok = False
+                        tt = bl.term
+                        if tt["k"] == "call" and any((a.get("mv") or a.get("cp") or {}).get("l") == it for a in tt.get("args", [])):
+                            uses_ok = False
+                    nexts = [b for b in body if fn.blocks[b].term["k"] == "call" and str(fn.blocks[b].term["fn"].get("path", "")) == npath]
+                    sw = t.get("tgt")
+                    if not uses_ok or nexts != [h] or sw is None or fn.blocks[sw].term["k"] != "switch" or sw not in body:
+                        continue
+                    st_ = fn.blocks[sw].term
+                    cases = {c[0]: c[1] for c in st_["cases"]}
+                    some_t = cases.get(1, st_["otherwise"] if 0 in cases else None)
+                    none_t = cases.get(0, st_["otherwise"] if 1 in cases else None)
+                    if some_t is None or none_t is None or some_t not in body or none_t in body:
+                        continue
+                    if any(d not in (none_t,) and fn.blocks[d].term["k"] != "unreachable" and d not in fn.diverging() for (s0, d) in L["exits"] if s0 != sw) and False:
+                        continue
+                    # ---- rewrite
+                    j = copy.deepcopy(fn.j)
+                    blocks = j["blocks"]
+                    order = sorted(body)
+                    k = len(elems)
+                    maps = []
+                    for i in range(k + 1):
+                        if i == 0:
+                            maps.append({b: b for b in order})
+                        elif i < k:
+                            m = {}
+                            for b in order:
+                                m[b] = len(blocks)
+                                blocks.append(copy.deepcopy(fn.j["blocks"][b]))
+                            maps.append(m)
+                        else:
+                            m = {h: len(blocks)}
+                            blocks.append({"stmts": [], "term": {"k": "goto", "tgt": none_t, "line": t.get("line")}})
+                            maps.append(m)
+
+                    def retarget(term, m, nxt):
+                        def tg(x):
+                            if x == h:
+                                return nxt
+                            return m.get(x, x)
+                        kk = term["k"]
+                        if kk == "goto":
+                            term["tgt"] = tg(term["tgt"])
+                        elif kk == "switch":
+                            term["cases"] = [[c[0], tg(c[1])] for c in term["cases"]]
+                            term["otherwise"] = tg(term["otherwise"])
+                        elif kk in ("drop", "assert", "call"):
+                            if term.get("tgt") is not None:
+                                term["tgt"] = tg(term["tgt"])
+                            if isinstance(term.get("unw"), int) and not isinstance(term.get("unw"), bool):
+                                term["unw"] = m.get(term["unw"], term["unw"])
+                    arr_final = arr
+                    for i in range(k):
+                        m = maps[i]
+                        nxt = maps[i + 1][h]
+                        for b in order:
+                            nb = blocks[m[b]]
+                            if b == h:
+                                line = nb["term"].get("line")
+                                pre = []
+                                if by_ref:
+                                    # Some(&arr[i]): a fresh reference local
+                                    ety = fn.locals[arr_final]["ty"]
+                                    ety = ety[1:ety.rindex(";")].strip() if ety.startswith("[") and ";" in ety else "?"
+                                    j["locals"].append({"ty": "&" + ety, "name": None, "unrolled_elem": True})
+                                    tl = len(j["locals"]) - 1
+                                    pre = [{"k": "assign", "dst": {"l": tl}, "line": line, "unrolled": i,
+                                            "rv": {"k": "ref", "mut": False, "place": {"l": arr_final, "p": [{"cidx": i, "ty": ety}], "ty": ety}}}]
+                                    elems = list(elems)
+                                    elems[i] = {"mv": {"l": tl}}
+                                nb["stmts"] = list(nb["stmts"]) + pre + [{"k": "assign", "dst": copy.deepcopy(t["dst"]), "line": line, "unrolled": i,
+                                                                    "rv": {"k": "agg", "ak": "adt", "adt": "core::option::Option", "variant": 1, "vname": "Some", "fields": ["0"],
+                                                                           "ops": [copy.deepcopy(elems[i])]}}]
+                                nb["term"] = {"k": "goto", "tgt": m[sw], "line": line, "unrolled": [h, i]}
+                            elif b == sw:
+                                nb["term"] = {"k": "goto", "tgt": m[some_t], "line": nb["term"].get("line"), "unrolled": [sw, i]}
+                            else:
+                                retarget(nb["term"], m, nxt)
+                                if i > 0:
+                                    nb["term"]["unrolled"] = [b, i]
+                    self.fns[path] = Fn(path, j, fn.crate)
+                    self.unrolled.append((path, h, k))
+                    done = True
+                    break
+                if not done:
+                    break
+
     def inline_new_helpers(self, known, max_rounds=5):
         def is_new(p):
             f = self.fns.get(p)
